@@ -4,9 +4,10 @@ A `twisted.internet.task.Clock` (sorted list of `DelayedCall`s, stable for equal
 plus the parts of IReactorCore that `Spinner` and `AsynchronousDeferredRunTest` use:
 `run / crash / stop / callWhenRunning / iterate / removeAll / running`, and `getDelayedCalls` returning a
 **copy** (`Clock.getDelayedCalls` hands out the live list, which `Spinner._clean` would mutate while
-iterating over it).  Time only moves inside `run()`: to the time of the earliest pending call, then every
-call due at that instant runs in scheduling order - also after a crash request, like one iteration of a
-real reactor (`runUntilCurrent`).  Like the real reactor, an exception escaping from a delayed call is
+iterating over it).  Time only moves inside `run()`: to the time of the earliest pending call; one *iteration* then runs the
+calls that are due and were scheduled before the iteration began, in scheduling order - also after a crash
+request - exactly like `ReactorBase.runUntilCurrent` of a real reactor (a call scheduled during an iteration,
+even with delay 0, waits for the next iteration; after a crash there is no next one).  Like the real reactor, an exception escaping from a delayed call is
 caught (recorded in `errors`), it does not abort the loop.
 
 `executed` records `(virtual time, DelayedCall)` for every call that ran.
@@ -28,6 +29,7 @@ class VirtualReactor(Clock):
         self.real_stops = 0          # calls of the *unpatched* stop()
         self.executed = []
         self.errors = []
+        self._iteration = 0
 
     # --- IReactorCore bits
     def callWhenRunning(self, f, *a, **kw):
@@ -69,11 +71,19 @@ class VirtualReactor(Clock):
         s, self.selectables = self.selectables, []
         return s
 
-    # --- Clock.advance with an execution log and the real reactor's exception barrier
+    def callLater(self, delay, f, *a, **kw):
+        dc = super().callLater(delay, f, *a, **kw)
+        dc._born = self._iteration            # the iteration during which the call was scheduled (0 = outside any)
+        return dc
+
+    # --- one reactor iteration: like ReactorBase.runUntilCurrent, run the calls that are due AND were scheduled before
+    # this iteration began (a call scheduled during an iteration, even with delay 0, waits for the next one); with an
+    # execution log and the real reactor's exception barrier
     def advance(self, amount):
         self.rightNow += amount
+        self._iteration += 1
         self._sortCalls()
-        while self.calls and self.calls[0].getTime() <= self.seconds():
+        while self.calls and self.calls[0].getTime() <= self.seconds() and self.calls[0]._born < self._iteration:
             call = self.calls.pop(0)
             call.called = 1
             self.executed.append((self.seconds(), call))
